@@ -244,8 +244,17 @@ Fixpoint params_only (p : prog) : bool :=
   | _ => false
   end.
 
-(* Block, anonymous Func with plain parameters, Decl var / function / let-const-class, Ref;
-   arbitrary nesting and order *)
+(* catch heads without default values *)
+Fixpoint catch_params_only (p : prog) : bool :=
+  match p with
+  | Done => true
+  | Decl DCatch _ k => catch_params_only k
+  | _ => false
+  end.
+
+(* Block, anonymous Func and parenthesised Arrow with plain parameters, Catch with plain parameters whose
+   names the catch block does not redeclare with var/function (Annex B), Decl var / function /
+   let-const-class, Ref; arbitrary nesting and order *)
 Fixpoint core (p : prog) : bool :=
   match p with
   | Done => true
@@ -253,6 +262,8 @@ Fixpoint core (p : prog) : bool :=
   | Decl d _ k => (match d with DVar | DFun | DLex => true | _ => false end) && core k
   | Block b k => core b && core k
   | Func None ps b k => params_only ps && core b && core k
+  | Arrow ps b k => params_only ps && core b && core k
+  | Catch hd b k => catch_params_only hd && disjointb (headdecls hd) (vardecls b) && core b && core k
   | _ => false
   end.
 
